@@ -319,3 +319,10 @@ class _Stop(Exception):
 #  7. fileutil.py get_disk_stats: avail from free_for_root                                CAUGHT (overcommit)
 #  8. immutable.py abort / close: bucket_writer_closed not called                         CAUGHT (reservation-ledger)
 #  9. server.py allocated_size(): counts half of each writer                              CAUGHT (reservation-ledger)
+# 10. server.py get_available_space: read-only tested only after the "no disk-stats API -> None" return (seeded C28-4)
+#                                                                        CAUGHT (readonly-accepts-without-disk-stats)
+#     -- was MISSED while every server ran on a disk with statistics; disk model (stats / no API / OSError) is now a
+#        case dimension crossed with read-only and reserved_space.
+# 11. server.py get_available_space: read-only honoured only when statistics are available     CAUGHT (same key)
+# 12. fileutil.py get_available_space: OSError reported as None (unlimited)                     CAUGHT (op-raises-TypeError)
+# The list is kept runnable in selftest/breaks_c28.py (tools/selftest.py --prop C28: 14/14 caught).
